@@ -813,7 +813,12 @@ impl<'r> Eng<'r> {
         if !divs.is_empty() {
             let (aspect, text, _) = divs[0].clone();
             let foreign = if op == OpKind::StoreOkDel { self.last_divergence_is_foreign(&text) } else { false };
-            let props = Self::props_for(op, aspect, foreign);
+            let mut props = Self::props_for(op, aspect, foreign);
+            // whatever the call was: an event that was stored and has not been removed, replaced or deleted (the model
+            // still has it) and can no longer be looked up by id is also C04's "until it is removed, replaced or deleted"
+            if aspect == Aspect::Retr && text.contains("= false, model says true") && op != OpKind::StoreErr && !props.contains(&"C04") {
+                props.push("C04");
+            }
             self.flag(&props, &format!("state-diverges-from-model:{:?}:{:?}", op, aspect), &format!("{} (and {} more)", text, divs.len() - 1));
             self.abort("state-diverged");
         }
